@@ -405,6 +405,12 @@ def op_table(o: Operands, subset=False):
             add("gcxs-getitem", f"{tag}[..., ::-2]", lambda G=G: G()[0][..., ::-2], not subset)
             add("gcxs-getitem", f"{tag}[int]", lambda G=G: G()[0][sl(e - 1)])
             add("gcxs-getitem", f"{tag}[adv]", lambda G=G: G()[0][sl(np.array([e - 1, 0]))], not subset)
+            # an integer for the first / last axis only: for nd >= 3 the remaining axes are re-split (indices // size, indices % size)
+            add("gcxs-getitem", f"{tag}[0]", lambda G=G: G()[0][0])
+            add("gcxs-getitem", f"{tag}[-1]", lambda G=G: G()[0][-1])
+            add("gcxs-getitem", f"{tag}[..., 0]", lambda G=G: G()[0][..., 0])
+            add("gcxs-getitem", f"{tag}[..., -1]", lambda G=G: G()[0][..., -1], not subset)
+            add("gcxs-getitem", f"{tag}[0, ..., -1]", lambda G=G: G()[0][0, ..., -1], nd >= 3)
             add("gcxs-getitem", f"{tag}[all ints]", lambda G=G: G()[0][tuple(int(v) for v in o.coords[:, -1])])
             add("gcxs-shape", f"{tag}.T", lambda G=G: G()[0].T)
             add("gcxs-shape", f"{tag}.reshape(-1)", lambda G=G: G()[0].reshape((-1,)))
